@@ -47,6 +47,10 @@ func init() {
 		mutant{"repeating timer ignores cancel from its callback", "timer.go",
 			"\t\t\tif t.cancelled {\n\t\t\t\tt.cancelled = false\n\t\t\t} else {\n\t\t\t\t// TODO this error should not be ignored\n\t\t\t\t_ = t.ScheduleOnce(repeat, ccb)\n\t\t\t}",
 			"\t\t\tt.cancelled = false\n\t\t\t_ = t.ScheduleOnce(repeat, ccb)", "C04-R4"},
+		mutant{"Cancel flags only scheduled timers", "timer.go",
+			"\terr := t.it.Unset()\n\tif err == nil {\n\t\tt.cancelled = true", "\terr := t.it.Unset()\n\tif err == nil && t.state == stateScheduled {\n\t\tt.cancelled = true", "C04-R4"},
+		mutant{"interest registered although arming failed", "internal/timer_linux.go",
+			"\t\terr = t.poller.SetRead(&t.slot)\n\t}\n\n\treturn err", "\t}\n\tif e2 := t.poller.SetRead(&t.slot); err == nil {\n\t\terr = e2\n\t}\n\n\treturn err", "C04-R2"},
 		mutant{"immediate callback clears the repeat flag", "timer.go",
 			"\tif t.state == stateReady {\n\t\tif delay <= 0 {", "\tif t.state == stateReady {\n\t\tt.cancelled = false\n\t\tif delay <= 0 {", "C04-R4"},
 		mutant{"immediate callback on a closed timer", "timer.go",
@@ -273,6 +277,20 @@ func runC04(c *Ctx) {
 		if found == 0 {
 			c.bad(itSet, "handler", itSet.Pos(), "the internal timer installs no handler that calls the user function")
 		}
+		// the read interest is registered only when the timerfd was armed: Set returns the arming error, and an interest
+		// left behind for a timer that never fires stays counted (RunPending blocks) with Scheduled() false
+		{
+			settime := p.ExtFunc("golang.org/x/sys/unix", "TimerfdSettime")
+			for _, reg := range callsTo(itSet, setReadI) {
+				good := false
+				for _, st := range callsTo(itSet, settime) {
+					if guardedNil(reg.(ssa.Instruction).Block(), st.(ssa.Value)) {
+						good = true
+					}
+				}
+				c.check(good, itSet, "interest after arming", reg.Pos(), "the read interest is registered on the success edge of timerfd_settime", "the read interest is registered although arming the timerfd may have failed: Set reports the error, the timer is not scheduled, yet an interest that can never fire stays registered and counted")
+			}
+		}
 	}
 
 	// ------------------------------------------------------------------------------------------------ R3
@@ -481,7 +499,10 @@ func runC04(c *Ctx) {
 			st := a.Instr.(*ssa.Store)
 			if isConstBool(st.Val, true) {
 				for _, call := range callsToFn(cancel, itUnset) {
-					if guardedNil(st.Block(), call.(ssa.Value)) {
+					// on every successful cancellation of a live timer: whatever state it is in (a repeating timer that
+					// cancels itself from its own callback is stateReady at that moment)
+					al := allowedStates(st.Block(), stateF, 3)
+					if guardedNil(st.Block(), call.(ssa.Value)) && al[ready] && al[scheduled] {
 						setOnSuccess = true
 					}
 				}
